@@ -1,5 +1,7 @@
 """Leaf reader/writer primitives: the (width, endianness, type) of each util reader is derived from its body,
 so the leaf table used by the layout extractors is computed from the code, not assumed from names."""
+import re
+
 from . import hir as H
 from .world import gpath
 
@@ -62,7 +64,10 @@ def prim_of_fn(fn):
     init = H.strip(s0[2])
     if H.tag(init) != "repeat" or not init[1].startswith("[u8; ") or H.lit_int(init[2]) != 0:
         return None
-    n = int(init[1][5:-1])
+    try:
+        n = int(init[1][5:-1])
+    except ValueError:
+        return None  # e.g. a const-generic length: decided by interpretation (prim_semantic)
     buf = s0[1][1]
     if s1[0] not in ("semi", "expr"):
         return None
@@ -94,6 +99,38 @@ def prim_of_fn(fn):
     if TY_WIDTH.get(ty) != n:
         return None
     return (n, en, ty, flavour)
+
+
+RESULT_TY = re.compile(r"Result<(u8|i8|u16|i16|u32|i32|u64|i64|f32|f64), ")
+
+
+def prim_semantic(g, crate, fn):
+    """A fixed-width reader of any shape (helper calls, const generics, arrays built another way): the body is interpreted on a stream of
+    distinct abstract bytes; it is a primitive iff it returns Ok of exactly the first N bytes in little- or big-endian order, N being the
+    width of its result type, and consumes exactly those."""
+    m = RESULT_TY.search(fn.get("output") or "")
+    if fn.get("hir") is None or not m or len(fn.get("params") or []) != 1:
+        return None
+    ty = m.group(1)
+    from .minieval import Mini, Stream, Tok, Wide, Unsupported, Panic
+    FB = {c: g.f(c) for c in ("wow_world_messages", "wow_login_messages", "wow_world_base")}
+    toks = [Tok(900 + i, "any") for i in range(16)]
+    st = Stream(toks)
+    try:
+        res = Mini(FB, crate).call_fn(fn["path"], [st])
+    except (Unsupported, Panic, KeyError, TypeError, ValueError, IndexError, AttributeError, RecursionError):
+        return None
+    w = TY_WIDTH[ty]
+    if not (isinstance(res, tuple) and len(res) == 2 and res[0] == "Ok") or st.pos != w:
+        return None
+    v = res[1]
+    slots = v.slots if isinstance(v, Wide) else [v]
+    flavour = strip_flavour(fn["name"])[1]
+    if slots == toks[:w]:
+        return (w, "le", ty, flavour)
+    if slots == toks[:w][::-1]:
+        return (w, "be", ty, flavour)
+    return None
 
 
 # semantic leaves by function name (prefix tokio_/astd_ stripped); their bodies are checked by builtin.siblings / C03
@@ -128,6 +165,8 @@ class LeafTable:
         for fn in F.all("fn", lambda p: p.startswith("crate::util::")):
             gp = gpath(crate, fn["path"])
             pr = prim_of_fn(fn)
+            if pr is None and fn["name"].split("_")[0] in ("read", "tokio", "astd") and strip_flavour(fn["name"])[0] not in NAMED_LEAVES:
+                pr = prim_semantic(g, crate, fn)
             if pr is not None:
                 self.prims[gp] = pr
                 continue
